@@ -709,6 +709,68 @@ def noArrMetaL : List PMeta → Bool
   | .expr _ ps :: es => noArrList ps && noArrMetaL es
 end
 
+/-! ## the `type` property (Expression.type getter, sqlglot/expressions/core.py) -/
+
+/-- which classes take the special branches of `Expression.type`: `is_data_type` (the type IS the node) and `is_cast`
+    (`self._type or self.to`); read off the live classes on every run -/
+structure TypeRules where
+  isDataType : String → Bool
+  isCast : String → Bool
+
+/-- `self.args[k]` for a single-valued arg (a list-valued or missing arg is not a cast target any parser builds: `none`) -/
+def argOne (k : String) : List Arg → Option Val
+  | [] => none
+  | .one k' v :: rest => if k' = k then some v else argOne k rest
+  | .many _ _ :: rest => argOne k rest
+
+def notNull : Option Val → Option Val
+  | some v => if v.isNull then none else some v
+  | none => none
+
+/-- what `dump` reads as `node.type` and keeps (`if node.type and node.type is not node`), given the node's `_type`
+    and args -/
+def typeProp (R : TypeRules) (cls : String) (ty : Option Val) (args : List Arg) : Option Val :=
+  if R.isDataType cls then none
+  else if R.isCast cls then
+    match ty with
+    | some t => some t
+    | none => notNull (argOne "to" args)
+  else ty
+
+/- the tree as `dump` sees it: every node's `ty` (read as `_type`) replaced by what its `type` property yields -/
+mutual
+def Val.view (R : TypeRules) : Val → Val
+  | .node cls ty c m args =>
+    .node cls (typeProp R cls (viewOpt R ty) (viewArgs R args)) c (viewMeta R m) (viewArgs R args)
+  | .dtype s => .dtype s
+  | .raw r => .raw r
+def viewOpt (R : TypeRules) : Option Val → Option Val
+  | none => none
+  | some v => some (v.view R)
+def viewMeta (R : TypeRules) : Option (List MetaE) → Option (List MetaE)
+  | none => none
+  | some l => some (viewMetaL R l)
+def viewMetaL (R : TypeRules) : List MetaE → List MetaE
+  | [] => []
+  | e :: es => e.view R :: viewMetaL R es
+def MetaE.view (R : TypeRules) : MetaE → MetaE
+  | .raw k r => .raw k r
+  | .expr k v => .expr k (v.view R)
+def viewArgs (R : TypeRules) : List Arg → List Arg
+  | [] => []
+  | a :: as => a.view R :: viewArgs R as
+def Arg.view (R : TypeRules) : Arg → Arg
+  | .one k v => .one k (v.view R)
+  | .many k vs => .many k (viewVals R vs)
+def viewVals (R : TypeRules) : List Val → List Val
+  | [] => []
+  | v :: vs => v.view R :: viewVals R vs
+end
+
+/-- `serde.dump` on a tree with raw `_type` fields -/
+def realDump (R : TypeRules) (t : Val) : List Payload := dump (t.view R)
+
+
 /-! ## pickling: `Expression.__reduce__` -/
 
 /-- what `__reduce__` hands to pickle: the callable is `serde.load`, its single argument is `dump(self)`; `state` is
@@ -814,5 +876,104 @@ def PMeta.toPy (K : Keys) : PMeta → Py × Py
   | .raw k r => (.str k, r.toPy)
   | .expr k ps => (.str k, .dict [(.str K.metaExpr, .list (payloadsToPy K ps))])
 end
+
+/-! ## JSON text, at token level (`json.dumps` / `json.loads` on the values `dump` produces)
+
+  Strings and integers are atomic tokens: their lexical form (escapes, `ensure_ascii`, digits) is CPython's and is not
+  modelled; the grammar — brackets, braces, commas, colons, nesting — is. -/
+
+inductive Tok where
+  | lbrace | rbrace | lbrack | rbrack | comma | colon
+  | null | tt | ff
+  | num (i : Int)
+  | str (s : String)
+deriving DecidableEq, Repr
+
+/- `json.dumps`: a dict key must be a str; anything that is not a JsonValue has no text (`opaque` → TypeError) -/
+mutual
+def render : Py → List Tok
+  | .none => [.null]
+  | .bool b => [if b then .tt else .ff]
+  | .int i => [.num i]
+  | .str s => [.str s]
+  | .list l => .lbrack :: renderElems l
+  | .dict l => .lbrace :: renderMembers l
+  | .opaque _ => []
+def renderElems : List Py → List Tok
+  | [] => [.rbrack]
+  | x :: xs => render x ++ renderElemsTail xs
+def renderElemsTail : List Py → List Tok
+  | [] => [.rbrack]
+  | x :: xs => .comma :: (render x ++ renderElemsTail xs)
+def renderMembers : List (Py × Py) → List Tok
+  | [] => [.rbrace]
+  | kv :: kvs => renderMember kv ++ renderMembersTail kvs
+def renderMembersTail : List (Py × Py) → List Tok
+  | [] => [.rbrace]
+  | kv :: kvs => .comma :: (renderMember kv ++ renderMembersTail kvs)
+def renderMember : Py × Py → List Tok
+  | (k, v) => render k ++ .colon :: render v
+end
+
+def startsWith (t : Tok) : List Tok → Bool
+  | t' :: _ => t' == t
+  | [] => false
+
+/- `json.loads`: recursive descent with fuel -/
+mutual
+def parse : Nat → List Tok → Option (Py × List Tok)
+  | 0, _ => none
+  | _ + 1, [] => none
+  | f + 1, t :: r =>
+    match t with
+    | .null => some (.none, r)
+    | .tt => some (.bool true, r)
+    | .ff => some (.bool false, r)
+    | .num i => some (.int i, r)
+    | .str s => some (.str s, r)
+    | .lbrack =>
+      if startsWith .rbrack r then some (.list [], r.tail)
+      else (parse f r).bind fun x => (parseElemsTail f x.2).bind fun xs => some (.list (x.1 :: xs.1), xs.2)
+    | .lbrace =>
+      if startsWith .rbrace r then some (.dict [], r.tail)
+      else (parseMember f r).bind fun kv => (parseMembersTail f kv.2).bind fun kvs => some (.dict (kv.1 :: kvs.1), kvs.2)
+    | _ => none
+def parseElemsTail : Nat → List Tok → Option (List Py × List Tok)
+  | 0, _ => none
+  | f + 1, toks =>
+    match toks with
+    | .rbrack :: r => some ([], r)
+    | .comma :: r => (parse f r).bind fun x => (parseElemsTail f x.2).bind fun xs => some (x.1 :: xs.1, xs.2)
+    | _ => none
+def parseMember : Nat → List Tok → Option ((Py × Py) × List Tok)
+  | 0, _ => none
+  | f + 1, toks =>
+    match toks with
+    | .str s :: .colon :: r => (parse f r).bind fun v => some ((.str s, v.1), v.2)
+    | _ => none
+def parseMembersTail : Nat → List Tok → Option (List (Py × Py) × List Tok)
+  | 0, _ => none
+  | f + 1, toks =>
+    match toks with
+    | .rbrace :: r => some ([], r)
+    | .comma :: r => (parseMember f r).bind fun kv => (parseMembersTail f kv.2).bind fun kvs => some (kv.1 :: kvs.1, kvs.2)
+    | _ => none
+end
+
+mutual
+def Py.size : Py → Nat
+  | .list l => 1 + sizePys l
+  | .dict l => 1 + sizeKvs l
+  | _ => 1
+def sizePys : List Py → Nat
+  | [] => 0
+  | x :: xs => x.size + 1 + sizePys xs
+def sizeKvs : List (Py × Py) → Nat
+  | [] => 0
+  | kv :: kvs => sizeKv kv + 1 + sizeKvs kvs
+def sizeKv : Py × Py → Nat
+  | (k, v) => k.size + v.size + 1
+end
+
 
 end SqlglotModel.Serde
